@@ -581,6 +581,146 @@ theorem binBounds_sound {env : Env} {fs : List Expr} {op : BOp} {l r : Expr} {lb
     simp only [binBounds] at h; cases h
     exact ⟨trivial, by simp only [binSem]; exact b2i_mem01 _⟩
 
+/-! ## the prover (`proveBinaryOp` and friends) -/
+
+theorem proveCV_sound {op : BOp} {lb rb : IR} {x y : Int} (h : proveCV op lb rb = true)
+    (hx : lb.mem x) (hy : rb.mem y) : op.isCmp = true ∧ cmpRel op x y := by
+  unfold proveCV at h
+  split at h
+  · rename_i l0 l1 r0 r1 h0 h1 h2 h3
+    have a0 := mem_lo hx h0
+    have a1 := mem_hi hx h1
+    have b0 := mem_lo hy h2
+    have b1 := mem_hi hy h3
+    cases op <;> simp at h <;> simp [BOp.isCmp, cmpRel] <;> omega
+  · cases h
+
+theorem opImpliesOp_sound {a b : BOp} (h : opImpliesOp a b = true) :
+    a = b ∨ (a.isCmp = true ∧ b.isCmp = true ∧ ∀ x y, cmpRel a x y → cmpRel b x y) := by
+  cases a <;> cases b <;> simp [opImpliesOp] at h <;>
+    first
+    | exact Or.inl rfl
+    | (refine Or.inr ⟨rfl, rfl, ?_⟩; intro x y hxy; simp only [cmpRel] at hxy ⊢; omega)
+
+theorem cmpConst_sound {op : BOp} {f c : Int} (h : cmpConst op f c = some true) :
+    op.isCmp = true ∧ cmpRel op f c := by
+  cases op <;> simp [cmpConst] at h <;> simp [BOp.isCmp, cmpRel] <;> omega
+
+theorem constVal_some {e : Expr} {v : Int} (h : constVal e = some v) : e = .const v := by
+  cases e <;> simp [constVal] at h
+  subst h; rfl
+
+theorem evalI_binary_cmp {env : Env} {op : BOp} (hc : op.isCmp = true) (l r : Expr) :
+    evalI env (.binary op l r) ≠ 0 ↔ cmpRel op (evalI env l) (evalI env r) := by
+  simp only [evalI]; exact cmp_true hc _ _ _
+
+theorem proveFacts_sound {env : Env} {op : BOp} {l r : Expr} :
+    ∀ (fs : List Expr), FactsHold env fs → proveFacts op l r fs = true →
+      evalI env (.binary op l r) ≠ 0 := by
+  intro fs
+  induction fs with
+  | nil => intro _ h; simp [proveFacts] at h
+  | cons x xs ih =>
+    intro hf h
+    have hx := hf x List.mem_cons_self
+    have hxs : FactsHold env xs := fun f hf' => hf f (List.mem_cons_of_mem _ hf')
+    unfold proveFacts at h
+    split at h
+    · rename_i fop xl xr
+      split at h
+      · rename_i hxl
+        have e1 : xl = l := eq_of_beq hxl
+        subst e1
+        split at h
+        · rename_i himp
+          simp only [Bool.and_eq_true] at himp
+          have e2 : xr = r := eq_of_beq himp.2
+          subst e2
+          rcases opImpliesOp_sound himp.1 with rfl | ⟨ca, cb, himpl⟩
+          · exact hx
+          · exact (evalI_binary_cmp cb _ _).2 (himpl _ _ ((evalI_binary_cmp ca _ _).1 hx))
+        · split at h
+          · rename_i rcv fcv hr hxr _
+            have e3 := constVal_some hr
+            have e4 := constVal_some hxr
+            subst e3; subst e4
+            split at h
+            · rename_i b hb
+              subst h
+              obtain ⟨cb, hrel⟩ := cmpConst_sound hb
+              have hfx := (evalI_binary_cmp (op := .eq) rfl _ _).1 hx
+              simp only [cmpRel, evalI] at hfx
+              apply (evalI_binary_cmp cb _ _).2
+              simp only [evalI, hfx]
+              exact hrel
+            · exact ih hxs h
+          · exact ih hxs h
+      · exact ih hxs h
+    · exact ih hxs h
+
+theorem proveCore_sound {env : Env} {fs : List Expr} {op : BOp} {l r : Expr} {lb rb : IR}
+    (hf : FactsHold env fs) (hl : lb.mem (evalI env l)) (hr : rb.mem (evalI env r))
+    (h : proveCore fs op l lb r rb = true) : evalI env (.binary op l r) ≠ 0 := by
+  unfold proveCore at h
+  simp only [Bool.or_eq_true] at h
+  rcases h with (h | h) | h
+  · split at h
+    · rename_i lcv hl'
+      have e := constVal_some hl'
+      subst e
+      obtain ⟨hc, hrel⟩ := proveCV_sound (x := lcv) h (by simp [mem_mkIR]) hr
+      exact (evalI_binary_cmp hc _ _).2 (by simpa [evalI] using hrel)
+    · cases h
+  · split at h
+    · rename_i rcv hr'
+      have e := constVal_some hr'
+      subst e
+      obtain ⟨hc, hrel⟩ := proveCV_sound (y := rcv) h hl (by simp [mem_mkIR])
+      exact (evalI_binary_cmp hc _ _).2 (by simpa [evalI] using hrel)
+    · cases h
+  · exact proveFacts_sound fs hf h
+
+theorem proveLenFacts_sound {env : Env} {all : List Expr} {op : BOp} {l r : Expr} {lb : IR}
+    (hop : op = .lt ∨ op = .le) (hall : FactsHold env all) (hl : lb.mem (evalI env l)) :
+    ∀ (fs : List Expr), FactsHold env fs → proveLenFacts all op l lb r fs = true →
+      evalI env (.binary op l r) ≠ 0 := by
+  intro fs
+  induction fs with
+  | nil => intro _ h; simp [proveLenFacts] at h
+  | cons x xs ih =>
+    intro hf h
+    have hx := hf x List.mem_cons_self
+    have hxs : FactsHold env xs := fun f hf' => hf f (List.mem_cons_of_mem _ hf')
+    unfold proveLenFacts at h
+    simp only [Bool.or_eq_true] at h
+    rcases h with h | h
+    · split at h
+      · rename_i xl c
+        simp only [Bool.and_eq_true] at h
+        have e : xl = r := eq_of_beq h.1
+        subst e
+        have h1 := proveCore_sound hall hl (by simp [mem_mkIR, evalI] : (mkIR c c).mem (evalI env (.const c))) h.2
+        have h2 := (evalI_binary_cmp (op := .ge) rfl _ _).1 hx
+        simp only [cmpRel, evalI] at h2
+        rcases hop with rfl | rfl
+        · have h3 := (evalI_binary_cmp (op := .lt) rfl _ _).1 h1
+          simp only [cmpRel, evalI] at h3
+          exact (evalI_binary_cmp (op := .lt) rfl _ _).2 (by simp only [cmpRel]; omega)
+        · have h3 := (evalI_binary_cmp (op := .le) rfl _ _).1 h1
+          simp only [cmpRel, evalI] at h3
+          exact (evalI_binary_cmp (op := .le) rfl _ _).2 (by simp only [cmpRel]; omega)
+      · cases h
+    · exact ih hxs h
+
+theorem proveLen_sound {env : Env} {fs : List Expr} {op : BOp} {l r : Expr} {lb rb : IR}
+    (hf : FactsHold env fs) (hl : lb.mem (evalI env l)) (hr : rb.mem (evalI env r))
+    (h : proveLen fs op l lb r rb = true) : evalI env (.binary op l r) ≠ 0 := by
+  unfold proveLen at h
+  simp only [Bool.or_eq_true, Bool.and_eq_true, beq_iff_eq] at h
+  rcases h with h | ⟨hop, h⟩
+  · exact proveCore_sound hf hl hr h
+  · exact proveLenFacts_sound hop hf hl fs hf h
+
 /-- the induction behind `bounds_contain`; `raw = true` is the prefix of an
 associative chain (no refinement, no type check, no monitor on the partial result) -/
 theorem bounds_contain_aux {env : Env} {fs : List Expr} (hf : FactsHold env fs) :
@@ -695,6 +835,36 @@ theorem bounds_contain_aux {env : Env} {fs : List Expr} (hf : FactsHold env fs) 
               refine ⟨⟨hsl, hsr, hmon, fun hc => ?_⟩, hmn', fun hc => ?_⟩ <;> simp_all
             · obtain ⟨h1, h2⟩ := finish_sound hf h hmn'
               exact ⟨⟨hsl, hsr, hmon, fun _ => h2.1⟩, h1, fun _ _ => h2⟩
+  | index a len ety i ih =>
+    intro raw b hv h
+    simp only [varsOk] at hv
+    simp only [bcheck] at h
+    split at h
+    · cases h
+    · rename_i ib hib
+      obtain ⟨hsi, hmi, _⟩ := ih false ib hv.1 hib
+      split at h
+      · cases h
+      · rename_i hlo
+        split at h
+        · cases h
+        · rename_i hhi
+          simp only [Bool.not_eq_true, Bool.not_eq_false'] at hlo hhi
+          have h0 := proveCore_sound hf
+            (by simp [mem_mkIR, evalI] : (mkIR 0 0).mem (evalI env (.const 0))) hmi hlo
+          have h1 := proveLen_sound hf hmi
+            (by simp [mem_mkIR, evalI] : (mkIR len len).mem (evalI env (.const (len : Int)))) hhi
+          have h0' := (evalI_binary_cmp (op := .le) rfl _ _).1 h0
+          have h1' := (evalI_binary_cmp (op := .lt) rfl _ _).1 h1
+          simp only [cmpRel, evalI] at h0' h1'
+          split at h
+          · cases h
+          · rename_i tb ht
+            have hm : tb.mem (evalI env (.index a len ety i)) := by
+              simp only [evalI]
+              exact (typeBounds_mem_iff ht _).2 (hv.2 _)
+            obtain ⟨h2, h3⟩ := finish_sound hf h hm
+            exact ⟨⟨hsi, h0', h1'⟩, h2, fun _ _ => h3⟩
 
 theorem bounds_contain' {env : Env} {fs : List Expr} {e : Expr} {b : IR}
     (hf : FactsHold env fs) (hv : varsOk env e) (h : bcheck fs false e = some b) :
@@ -706,5 +876,25 @@ theorem bounds_contain_type' {env : Env} {fs : List Expr} {e : Expr} {b : IR}
     (hf : FactsHold env fs) (hv : varsOk env e) (h : bcheck fs false e = some b)
     (hne : (typeOf e).base ≠ .ideal) : inType (typeOf e) (evalI env e) :=
   (bounds_contain_aux hf e false b hv h).2.2 rfl hne
+
+/-- Soundness of `proveBinaryOp` (the no-`via` path of `bcheckAssert`, the requirements
+of the `via` reasons, the index obligations): what it proves from the facts and the
+operand bounds is true in every store that satisfies the facts. -/
+theorem proveBinaryOp_sound {env : Env} {fs : List Expr} {op : BOp} {l r : Expr}
+    (hf : FactsHold env fs) (hvl : varsOk env l) (hvr : varsOk env r)
+    (h : proveBinaryOp fs op l r = some true) : evalI env (.binary op l r) ≠ 0 := by
+  unfold proveBinaryOp at h
+  split at h
+  · rename_i lb rb hlb hrb
+    simp only [Option.some.injEq] at h
+    exact proveCore_sound hf (bounds_contain' hf hvl hlb).2 (bounds_contain' hf hvr hrb).2 h
+  · cases h
+
+/-- an accepted element read `a[i]` is within the array: `0 ≤ i < len` -/
+theorem index_in_range' {env : Env} {fs : List Expr} {a : String} {len : Nat} {ety : Ty}
+    {i : Expr} {b : IR} (hf : FactsHold env fs) (hv : varsOk env (.index a len ety i))
+    (h : bcheck fs false (.index a len ety i) = some b) :
+    0 ≤ evalI env i ∧ evalI env i < len :=
+  (bounds_contain' hf hv h).1.2
 
 end WuffsVerif.Proof.WCoreBounds
